@@ -98,7 +98,7 @@ var propRe = regexp.MustCompile(`^\[((?:C[0-9]+\s*)+)\]\s*(.*)$`)
 
 var keywords = map[string]bool{"func": true, "iface": true, "property": true, "use": true, "requires": true, "ensures": true,
 	"loop": true, "modifies": true, "trusted": true, "inline": true, "pure": true, "axiom": true, "lemma": true,
-	"ghost": true, "smt": true, "let": true, "macro": true, "rangeinv": true, "at": true, "dispatch": true, "chan": true, "site": true, "nopanic": true, "end": true, "note": true, "params": true}
+	"ghost": true, "smt": true, "let": true, "extern": true, "macro": true, "rangeinv": true, "at": true, "dispatch": true, "chan": true, "site": true, "nopanic": true, "end": true, "note": true, "params": true}
 
 func (e *Engine) loadContracts(dir string, pkg *types.Package) error {
 	path := filepath.Join(dir, "verif_contracts.go")
@@ -209,9 +209,21 @@ func (e *Engine) loadContracts(dir string, pkg *types.Package) error {
 			}
 			macros = append(macros, [2]string{strings.TrimSpace(f[0]), strings.TrimSpace(f[1])})
 			lets = append([][2]string{}, macros...)
+		case "extern":
+			// declarative contract of a library function (trusted): name is "<import path>.<Func>" or "<import path>.(*T).Method"
+			lets = append([][2]string{}, macros...)
+			if e.contracts[rest] != nil {
+				return fmt.Errorf("%s:%d: duplicate extern contract %s", path, d.line, rest)
+			}
+			cur = &Contract{Name: rest, Pkg: pkg, Loops: map[int]*LoopSpec{}, File: path, Line: d.line, Trusted: true}
+			e.contracts[cur.Name] = cur
 		case "func", "iface":
 			lets = append([][2]string{}, macros...)
-			cur = &Contract{Name: pn + "." + rest, Pkg: pkg, Loops: map[int]*LoopSpec{}, File: path, Line: d.line, IsIface: kw == "iface"}
+			cname := pn + "." + rest
+			if strings.HasPrefix(rest, "=") {
+				cname = rest[1:] // absolute name, e.g. an interface of another package: =fs.FileInfo.Name
+			}
+			cur = &Contract{Name: cname, Pkg: pkg, Loops: map[int]*LoopSpec{}, File: path, Line: d.line, IsIface: kw == "iface"}
 			if kw == "iface" {
 				e.ifaceContracts[cur.Name] = cur
 			} else {
